@@ -34,8 +34,11 @@ def rule_own(ctx: Ctx) -> List[Ob]:
             for o in m.origins:
                 if is_private(o):
                     continue
-                if o[0] == "param" and root(o) in acc:
-                    continue
+                if o[0] == "param" and root(o) in acc and "[]" not in o[1]:
+                    continue   # the accumulator object itself (append / popleft / attribute or slot store)
+                # an *element* taken out of an accumulator container (X.popleft(), G[-1], iteration) is not
+                # licensed: the history holds checkpoint.jac by reference after a restart and the arrays of
+                # states already handed to the callback, so recycling a buffer writes a caller-owned object
                 if o[0] == "free":
                     continue   # charged to the enclosing function at the closure definition
                 if o[0] in ("global", "default"):
@@ -43,7 +46,9 @@ def rule_own(ctx: Ctx) -> List[Ob]:
                 bad.append(o)
             nontrivial = any(not is_private(o) for o in m.origins) or m.how.startswith("callee")
             if bad:
-                chain = "; ".join(f"{o[0]}:{o[1]}" for o in bad)
+                chain = "; ".join(f"{o[0]}:{o[1]}" + (" (element of an accumulator container: may be the caller's checkpoint.jac "
+                                                       "or an array of a state already handed out)" if o[0] == "param" and "[]" in str(o[1])
+                                                       and root(o) in acc else "") for o in bad)
                 obs.append(ob("OWN", "write targets only private objects or accumulators", f, m.site, False,
                               f"{m.how} on `{m.target}` may write caller-owned object(s) [{chain}] "
                               f"(alias chain: `{m.target}` <- {chain})", construct=short(m.node.ast if m.node.ast is not None else m.site)))
